@@ -101,3 +101,17 @@ Theorem C05_every_written_script_is_loaded :
     from_reader 0 (p_script er tags ns) = Some (map mean_node ns).
 Proof. exact written_script_is_loaded. Qed.
 Print Assumptions C05_every_written_script_is_loaded.
+
+(* ... and with the expressions written as tokens of the real lexer's vocabulary (Proofs/ExprTokens.v:
+   minimal parentheses over the generated precedence table, `$x`, `"s"`, digits, true / false / null),
+   nothing is left as a parameter.  Proofs/ExprFuelProofs.v makes the fuel of the expression parser
+   explicit (2 * tokens + 1 suffice; the model gives 4 * tokens + 4).  The one condition on expressions:
+   the text written for a number is read back as that number ([ewf_min]: num_ok on every numeral -
+   number(string(x)) = x is not proved in general, it is checked per literal by computation). *)
+From YS Require Import Proofs.ExprTokens Proofs.ScriptTokens.
+
+Theorem C05_every_written_script_is_loaded_real_tokens : forall tags ns,
+  ns <> [] -> Forall (node_ok er_min ewf_min) ns ->
+  from_reader 0 (p_script er_min tags ns) = Some (map mean_node ns).
+Proof. exact written_script_tokens_are_loaded. Qed.
+Print Assumptions C05_every_written_script_is_loaded_real_tokens.
